@@ -362,6 +362,66 @@ func earlyExit(p *Prog, body *ast.BlockStmt, label string) string {
 	return exit
 }
 
+// skipBeforeDispatch: a `continue` of the key loop in the statements that precede the dispatch over the key, in a statement
+// that does not report: the entry is dropped without having been looked at. "" if there is none.
+func skipBeforeDispatch(p *Prog, info *types.Info, kl *keyLoop) string {
+	if kl.dispatch == nil {
+		return ""
+	}
+	for _, st := range kl.rs.Body.List {
+		if st == kl.dispatch {
+			break
+		}
+		reports := false
+		ast.Inspect(st, func(x ast.Node) bool {
+			if call, ok := x.(*ast.CallExpr); ok {
+				if fn := calleeObj(info, call); fn != nil {
+					if n := shortFuncName(fn); strings.HasPrefix(n, "(*parser).error") || n == "(*parser).unexpectedKey" {
+						reports = true
+					}
+				}
+			}
+			return true
+		})
+		if reports {
+			continue
+		}
+		found := ""
+		var walk func(x ast.Node, inner bool)
+		walk = func(x ast.Node, inner bool) {
+			ast.Inspect(x, func(y ast.Node) bool {
+				if y == nil || found != "" {
+					return false
+				}
+				switch s := y.(type) {
+				case *ast.FuncLit:
+					return false
+				case *ast.BranchStmt:
+					if s.Tok == token.CONTINUE && ((s.Label == nil && !inner) || (s.Label != nil && kl.label != "" && s.Label.Name == kl.label)) {
+						found = "continue at " + p.Pos(s.Pos())
+					}
+				case *ast.ForStmt:
+					if y != x {
+						walk(s.Body, true)
+						return false
+					}
+				case *ast.RangeStmt:
+					if y != x {
+						walk(s.Body, true)
+						return false
+					}
+				}
+				return true
+			})
+		}
+		walk(st, false)
+		if found != "" {
+			return found
+		}
+	}
+	return ""
+}
+
 func runC13Cont(c *Ctx) {
 	info := c.P.info()
 	occ := map[string]int{}
@@ -369,6 +429,8 @@ func runC13Cont(c *Ctx) {
 		name := kl.name(info, occ)
 		if e := earlyExit(c.P, kl.rs.Body, kl.label); e != "" {
 			c.bad(name, kl.rs.Pos(), "the key loop can stop early ("+e+"): the remaining keys of the mapping are neither parsed nor checked")
+		} else if e := skipBeforeDispatch(c.P, info, kl); e != "" {
+			c.bad(name, kl.rs.Pos(), "a key can be passed over before it is compared with the key set ("+e+"): such a key is neither parsed nor reported when it is foreign")
 		} else {
 			c.ok(name, kl.rs.Pos(), "every key of the mapping is visited")
 		}
